@@ -531,6 +531,9 @@ func c08RefusedRun(w *fw.W, idx int) {
 	}
 	w.CoverKey(fmt.Sprintf("refused-history|%s|loads=%d|followed=%d", x.class, len(segs), x.followed))
 	w.Count("refused_histories_judged", 1)
+	if w.WantSample() && len(detail) < 2500 && in.RefusedCalls > 0 {
+		w.Sample(map[string]any{"family": "refused-operation history", "class": x.class, "history": detail})
+	}
 	w.Count("refused_loads", int64(len(segs)))
 	w.Count("probe_events", int64(len(rr.Trace)))
 }
